@@ -166,7 +166,7 @@ pub fn prop(tier: Tier, seed: u64) -> Prop {
     }
     geos.extend(tier.pick(vec![(4097, 1), (1, 300)], vec![(4097, 1), (65535, 2), (1, 300), (2, 4097), (1000, 3)]));
     let algs: Vec<Alg> = FILT.iter().flat_map(|f| [Alg::Conv(*f), Alg::Interp(*f)]).collect();
-    let dims2 = vec![geos.len() as u64, 5, algs.len() as u64];
+    let dims2 = vec![geos.len() as u64, 6, algs.len() as u64];
     let (d2, g2, a2, b2) = (dims2.clone(), geos.clone(), algs.clone(), bes.clone());
     p.spaces.push(Space::new("direct 1-D: geometry x crop x filter x {Conv,Interp} (x 13 types x back-ends x 2 orientations; row r carries value r)", product(&dims2), move |idx, ctx| {
         let mut d = [0usize; 3];
